@@ -41,3 +41,8 @@ package cmd
 //@ assert before WriteToCsv#1 forall r int :: {toCsv[r]} 1 <= r && r < len(toCsv) ==> FileDirIn(outputFiles, len(outputFiles), toCsv[r][0])
 //@ assert before WriteToCsv#1 len(outputFiles) == NKept(dirs, len(dirs))
 //@ assert before WriteToCsv#1 forall r1 int, r2 int :: {toCsv[r1], toCsv[r2]} 1 <= r1 && r1 < r2 && r2 < len(toCsv) ==> toCsv[r1][0] != toCsv[r2][0]
+
+// ---- C01 / C02: `coca analysis` hands the identifier pass's result to the full pass
+//@ func AnalysisJava
+//@ modifies *
+//@ assert before AnalysisPath#2 analysisCmdConfig.UpdateIdentify ==> iNodes == IdentResult(importPath)
